@@ -658,7 +658,7 @@ func (ex *Exec) specFuncApp(env *Env, sf *SpecFunc, args []Val) Val {
 			pn = append(pn, "("+"a_"+p.Name+" "+s.Name+")")
 			n.names[p.Name] = Val{T: "a_" + p.Name, S: s, GoT: gt}
 		}
-		if ex.reveal[sf.Name] && (sf.Def != nil || sf.RawDef != "") {
+		if (ex.reveal[sf.Name] || sf.Transparent) && (sf.Def != nil || sf.RawDef != "") {
 			var body string
 			if sf.RawDef != "" {
 				body = sf.RawDef
